@@ -2,7 +2,7 @@ SPECIFICATION Spec
 CONSTANTS
   Deviations = {}
   Fns = {"Service", "Method", "Payload", "Attribute", "HTTP", "GET", "Param", "Response", "Error", "Security", "JWTSecurity", "Server"}
-  Pools = "small"
+  Pools = "tiny"
   MaxCalls = 3
   MinCalls = 1
   MaxDepth = 3
